@@ -205,7 +205,7 @@ func (g *c04Rand) program(depth int) string {
 
 func init() {
 	register("C04", &Prop{
-		Timeout: 3 * time.Second,
+		Timeout: 20 * time.Second,
 		Setup:   evSetup,
 		Gen: func(g *Gen) {
 			lz := NewEvLazy(g)
